@@ -47,4 +47,8 @@ EncSize(schema, row) == SumTo([i \in 1..Len(schema) |-> ColSize(schema[i], row[i
 \* the rule of C08: a row is stored iff every value suits its column and the
 \* encoding does not exceed the limit
 Accept(schema, row) == RowValid(schema, row) /\ EncSize(schema, row) <= MaxRowSize
+
+\* CREATE TABLE: the column names of a table are distinct (names are case sensitive).  Of two columns with one name
+\* only one value could ever be read back.
+CreateOK(names) == \A i, j \in 1..Len(names) : i # j => names[i] # names[j]
 =============================================================================
